@@ -59,6 +59,15 @@ def replay_pv(rec):
 
 if __name__ == "__main__":
     rec = load()
+    if rec.get("target", "").endswith("GlobalStats.metrics"):
+        import os
+        import sys
+
+        sys.path.insert(0, os.path.join(os.path.dirname(os.path.abspath(__file__)), "..", "bounded"))
+        from C08_results import check_lookup
+
+        p_ = check_lookup()
+        done(bool(p_), p_[0] if p_ else "GlobalStats.metrics lookup table passes")
     if rec["target"].endswith("percentile_value"):
         replay_pv(rec)
     done(False, "no adapter for " + rec["target"])
